@@ -467,6 +467,13 @@ Fixpoint pages (fuel : nat) (names : list str) (tok : option str) (n : Z) : list
       end
   end.
 
+Lemma last_app_nonempty : forall (A : Type) (a p : list A) d, p <> [] -> last (a ++ p) d = last p d.
+Proof.
+  intros A a p d Hp. induction a as [|x a IH]; [reflexivity|].
+  cbn [app]. destruct (a ++ p) as [|y r] eqn:E; [apply app_eq_nil in E as [_ E]; contradiction|].
+  exact IH.
+Qed.
+
 Lemma firstn_skipn_nonempty : forall (A : Type) k (l : list A), (0 < k)%nat -> l <> [] -> firstn k l <> [].
 Proof. intros A k l Hk Hl. destruct k; [lia|]. destruct l; [contradiction | discriminate]. Qed.
 
@@ -492,7 +499,7 @@ Proof.
     assert (HS2 : sort_names names = (A ++ p) ++ R2) by (rewrite <- app_assoc, Hsplit0; exact HS).
     destruct (IH names (A ++ p) R2 n Hnd Hn HS2 (Some (last p []))) as [C F].
     + right. split; [intro E; apply app_eq_nil in E as [_ E]; contradiction|].
-      f_equal. rewrite (app_removelast_last [] Hp) at 1. rewrite app_assoc. rewrite last_snoc. reflexivity.
+      f_equal. symmetry. apply last_app_nonempty. exact Hp.
     + exact Hslen.
     + cbn [concat]. rewrite C. split; [exact Hsplit0|].
       constructor; [|exact F]. split; [exact Hflen | exact Hp].
